@@ -193,7 +193,14 @@ pub fn run(r: &Req) -> Option<String> {
         "c16_as_cr" => with_unit!(u, U => {
             let t = dt_of::<U>(x);
             let c = t.as_cr();
-            let a = match &c { None => "_".to_string(), Some(c) => instant(c).to_string() };
+            // the deprecated alias `to_cr` is the same conversion
+            #[allow(deprecated)]
+            let alias = t.to_cr();
+            let a = if alias != c {
+                format!("ALIAS:{}", match &alias { None => "_".to_string(), Some(c) => instant(c).to_string() })
+            } else {
+                match &c { None => "_".to_string(), Some(c) => instant(c).to_string() }
+            };
             let fl = match (t.year(), t.month(), t.day(), t.hour(), t.minute(), t.second()) {
                 (Some(y), Some(mo), Some(dd), Some(h), Some(mi), Some(s)) => format!("{}.{}.{}.{}.{}.{}", y, mo, dd, h, mi, s),
                 (None, None, None, None, None, None) => "_".to_string(),
@@ -556,7 +563,7 @@ pub fn rule(tier: &str) -> String {
     let (small, n) = if tier == "thorough" { (3100, 100_000) } else { (1100, 10_000) };
     format!("exhaustive: into_unit and Cast<DateTime<_>> on all 4x4 unit pairs x (NaT, every timestamp in -{small}..={small}, \
 10^3k*(1,2,7,86400) +-2 of both signs, i64::MAX/k and i64::MIN/k +-2 for the three unit ratios k, both ends of chrono's range in every unit +-2, \
-i64::MIN..MIN+3, i64::MAX-3..MAX), each also compared with chrono (from_timestamp_* then timestamp_*); into_opt_i64 / Cast<Option<i64>> / IsNone / as_cr / \
+i64::MIN..MIN+3, i64::MAX-3..MAX), each also compared with chrono (from_timestamp_* then timestamp_*); into_opt_i64 / Cast<Option<i64>> / IsNone / as_cr (and its deprecated alias to_cr) / \
 year..second getters / From<chrono> round trip on 4 units x (NaT, -130..=130, the same edge values); From<chrono> on 4 units x 33 second values x 16 sub-second values; \
 every operator (DateTime+-TimeDelta, DateTime-DateTime, TimeDelta neg + - *i32, Time+-TimeDelta) on grids that put NaT in every operand position; \
 then {n} random conversions over the whole i64 range (uniform bit length) and {} random cases of each other request. A missing optional number (None of f64, f32, i64, i32, u64, usize, isize, u8) cast to DateTime of each unit, TimeDelta and Time must be NaT (24 flags per unit). non-trivial = output has a non-null token.", n / 4)
